@@ -77,6 +77,11 @@ def find(prop, failure, R, info, binpath, timeout=600):
         rc, nout, nerr = native.run(binpath, cmd)
         reproduced = 'RESULT MISMATCH' in nout or 'RESULT PANIC' in nout or rc != 0
         failing = [l for l in re.findall(r'Failed Checks: (.*)', out)][:3]
+        if not reproduced:
+            # e.g. C08 (panic-only): Kani's harness also fails on a mere disagreement with the specification, which is not
+            # this property's hit - go on to the native sweeps of the family
+            tried[-1]['note'] = 'Kani produced values %s but the native run of the real code does not reproduce a failure of this property' % vals
+            continue
         return {
             'counterexample': {
                 'found_by': 'Kani 0.68 concrete playback on harness cex::%s (executable rendering of the specification vs the real compiled code; bounded search, used only to obtain an input)' % sc,
